@@ -317,6 +317,32 @@ theorem tensor_first_eq (shape : Shape ν) (data : List α) (t : Tensor ν α)
 theorem scalar_eq (v : TView ν α) (hv : v.lazy.Valid) (h0 : v.shape = []) :
     ∃ x, v.scalar = .ok x ∧ (materialise v.lazy).elems = [x] := v.scalar_eq hv h0
 
+/-- **into_scalar** (`TensorOwnedIterator::from(source).next().unwrap()`) agrees with `scalar`
+    on every valid 0-dimensional source, and neither panics. -/
+theorem intoScalar_eq_scalar (v : TView ν α) (hv : v.lazy.Valid) (h0 : v.shape = []) :
+    v.intoScalar = v.scalar ∧ ∃ x, v.scalar = .ok x := by
+  obtain ⟨x, hs, he⟩ := v.scalar_eq hv h0
+  refine ⟨?_, x, hs⟩
+  unfold TView.intoScalar
+  rw [v.iter_eq, he, hs]
+  rfl
+
+/-- `dimensions::is_square` ⇔ all lengths are equal (trivially so for `D ≤ 1`); together with
+    `D = 2` this is the guard of the in-place branch of `reorder_mut`. -/
+theorem isSquare_iff (shape : Shape ν) :
+    isSquare shape = true ↔ ∀ d ∈ shape, ∀ e ∈ shape, d.2 = e.2 := by
+  cases shape with
+  | nil => simp [isSquare]
+  | cons d rest =>
+    simp only [isSquare, List.all_eq_true, beq_iff_eq, List.mem_cons]
+    constructor
+    · intro h a ha b hb
+      have ha' : a.2 = d.2 := by rcases ha with rfl | ha; rfl; exact h a ha
+      have hb' : b.2 = d.2 := by rcases hb with rfl | hb; rfl; exact h b hb
+      rw [ha', hb']
+    · intro h e he
+      exact h e (Or.inr he) d (Or.inl rfl)
+
 /-- **tensor → matrix → tensor** and **matrix → tensor → matrix** are the identity; the matrix has
     the same row-major data with `rows`/`columns` the two lengths; equal names are refused. -/
 theorem conversion_roundtrip (r c : ν) (n m : Nat) (data : List α) (t : Tensor ν α)
